@@ -35,8 +35,12 @@ func VerifC11IBCHookAtomic() {
 	rt.Assume(amtOK && amt.IsPositive())
 	recv, recvErr := sdk.AccAddressFromBech32(data.Receiver)
 	rt.Assume(recvErr == nil)
-	denom, denomErr := types.IBCDenom(packet.GetDestPort(), packet.GetDestChannel(), data.Denom)
-	rt.Assume(denomErr != nil || sdk.ValidateDenom(denom) == nil)
+	// the voucher the ICS-20 application credits for a coin that does not return to its source (ibc-go relay.go), written out
+	// here instead of calling the module's own IBCDenom; returning coins are outside this harness
+	rt.Assume(!transfertypes.ReceiverChainIsSource(packet.GetSourcePort(), packet.GetSourceChannel(), data.Denom))
+	denom := transfertypes.ParseDenomTrace(transfertypes.GetDenomPrefix(packet.GetDestPort(), packet.GetDestChannel()) + data.Denom).IBCDenom()
+	var denomErr error
+	rt.Assume(sdk.ValidateDenom(denom) == nil)
 	converted, convOK := 0, false
 	var asked *types.MsgConvertCoin
 	rt.Override("(github.com/teleport-network/teleport/x/aggregate/keeper.Keeper).ConvertCoin", func(_ Keeper, goCtx context.Context, msg *types.MsgConvertCoin) (*types.MsgConvertCoinResponse, error) {
